@@ -108,9 +108,16 @@ func rdTokens(stmts []ast.Stmt) []string {
 					case "ReadIntFromReader":
 						out = append(out, ".u64")
 						continue
-					case "reader.Read":
+					case "reader.Read", "readBytesFromReader":
 						out = append(out, ".raw")
 						continue
+					case "append":
+						// storing the element just read: `xs = append(xs, s)` with xs on both sides
+						if len(ce.Args) == 2 && len(v.Lhs) == 1 && src(v.Lhs[0]) == src(ce.Args[0]) {
+							if _, ok := ce.Args[1].(*ast.Ident); ok {
+								continue
+							}
+						}
 					case "meta.ReadMetaFrom":
 						out = append(out, ".metaRec")
 						continue
